@@ -527,6 +527,10 @@ class WorldGen:
                         break
                 else:
                     bs = []
+                    b2 = dict(rb)
+                    b2[r] = bs
+                    if not all(c03.lin(b2, j) is not None for j in down):
+                        continue
                 rb[r] = bs
                 line = "rbases|%d|%s" % (r, " ".join(map(str, bs)))
             elif k == "rebuild":
